@@ -15,6 +15,7 @@ ROOT = os.path.dirname(os.path.dirname(os.path.abspath(__file__)))
 REPO = os.environ.get('VERIF_REPO', '/repo')
 CACHE = os.path.join(ROOT, '.cache')
 COQ = os.path.join(ROOT, 'coq')
+COVERAGE = os.environ.get('VERIF_COVERAGE')   # directory for .profraw files; measurement mode of tools/coverage.py
 sys.path.insert(0, os.path.join(ROOT, 'translate'))
 sys.path.insert(0, os.path.join(ROOT, 'lib'))
 
@@ -271,10 +272,16 @@ def build_harness(bins, hdir='harness'):
         shutil.copy(os.path.join(REPO, 'Cargo.lock'), os.path.join(h, 'Cargo.lock'))
     target = os.path.join(CACHE, 'target')
     cmd = ['cargo', 'build', '--release', '--offline']
+    flags = '--cfg h3_verif'
+    if COVERAGE:
+        # measurement mode only (tools/coverage.py): instrumented build with the nightly toolchain (it ships llvm-tools)
+        target = os.path.join(CACHE, 'target-cov')
+        cmd = ['cargo', '+nightly', 'build', '--release', '--offline']
+        flags += ' -C instrument-coverage'
     for b in bins:
         cmd += ['--bin', b]
     rc, out = run(cmd, cwd=h, timeout=1800,
-                  env={'CARGO_TARGET_DIR': target, 'RUSTFLAGS': '--cfg h3_verif', 'CARGO_NET_OFFLINE': 'true'})
+                  env={'CARGO_TARGET_DIR': target, 'RUSTFLAGS': flags, 'CARGO_NET_OFFLINE': 'true'})
     if rc != 0:
         raise CheckError('cargo build of the harness failed (the harness no longer compiles against /repo):\n' + out[-4000:])
     return {b: os.path.join(target, 'release', b) for b in bins}
@@ -292,6 +299,8 @@ def run_cases(exe, lines, shards=16, timeout=3600, env=None):
     e = dict(os.environ)
     if env:
         e.update(env)
+    if COVERAGE:
+        e['LLVM_PROFILE_FILE'] = os.path.join(COVERAGE, os.path.basename(exe) + '-%p-%m.profraw')
     for ch in chunks:
         p = subprocess.Popen([exe], stdin=subprocess.PIPE, stdout=subprocess.PIPE, stderr=subprocess.PIPE, env=e)
         procs.append(p)
